@@ -325,7 +325,10 @@ Qed.
 
 Lemma si_step chk ct slot sd op : SI sd -> SI (fst (fst (bs_step chk ct slot sd op))).
 Proof.
-  intros HS. pose proof HS as [RD RR]. unfold bs_step. destruct (sd_panicked sd) eqn:Hp; [exact HS|].
+  intros HS. pose proof HS as [RD RR].
+  (* a shred refused by the tag guard leaves the state as it is *)
+  destruct (bs_step_cases chk ct slot sd op) as [->|[_ [_ ->]]]; [|exact HS].
+  unfold bs_step_gen. destruct (sd_panicked sd) eqn:Hp; [exact HS|]. cbn [andb].
   destruct op as [s|key expected s|idx last root size].
   - destruct (sd_misbehaved sd) eqn:M; [exact HS|].
     pose proof (ri_add_shred chk ct slot (sd_dissem sd) s RD) as R'.
@@ -436,7 +439,8 @@ Proof. intros chk ct slot ops key_hash r. apply answer_ok_si, si_run. Qed.
 Lemma step_repaired_frame chk ct slot sd op : (match op with BRepair _ _ _ => false | _ => true end) = true ->
   sd_repaired (fst (fst (bs_step chk ct slot sd op))) = sd_repaired sd.
 Proof.
-  intros Hop. unfold bs_step. destruct (sd_panicked sd); [reflexivity|].
+  intros Hop. destruct (bs_step_cases chk ct slot sd op) as [->|[_ [_ ->]]]; [|reflexivity].
+  unfold bs_step_gen. destruct (sd_panicked sd); [reflexivity|]. cbn [andb].
   destruct op as [s|key expected s|idx last root size]; [| discriminate |].
   - destruct (sd_misbehaved sd) eqn:M; [reflexivity|].
     destruct (bd_add_shred chk ct slot (sd_dissem sd) s) as [d r].
